@@ -448,14 +448,14 @@ func (dsc *dataStoreCommand) keys(pattern string) (list []string) {
 	dsc.lock()
 	defer dsc.unlock()
 
-	pat := []rune(pattern)
+	pat := []byte(pattern)
 
 	for i := dsc.ds.data.createIterator(); i.next(); {
 		sv := i.value.(*storeKey)
 		if sv.isExpiredUnlocked() {
 			continue
 		}
-		if !redisGlob(pat, []rune(i.key)) {
+		if !redisGlob(pat, []byte(i.key)) {
 			continue
 		}
 
@@ -1106,9 +1106,9 @@ func (dsc *dataStoreCommand) dictScanUnlocked(data *redisDict, cursor uint32, pa
 	shift := 32 - bitPosition(highBit)
 	mask := highBit - 1
 
-	var pat []rune
+	var pat []byte
 	if pattern != "" {
-		pat = []rune(pattern)
+		pat = []byte(pattern)
 	}
 
 	cursor &= mask
@@ -1118,7 +1118,7 @@ func (dsc *dataStoreCommand) dictScanUnlocked(data *redisDict, cursor uint32, pa
 		if item != nil {
 			match := isMatch(item)
 			if match != nil {
-				if redisGlob(pat, []rune(item.key)) {
+				if redisGlob(pat, []byte(item.key)) {
 					matches = append(matches, item.key)
 					if match != item {
 						matches = append(matches, match)
